@@ -9,11 +9,14 @@ import (
 	"strconv"
 	"strings"
 	"sync"
+	"sync/atomic"
 	"time"
 	"unicode"
 
 	frugal "github.com/Workiva/frugal/lib/go"
 	"github.com/apache/thrift/lib/go/thrift"
+	natsd "github.com/nats-io/nats-server/v2/server"
+	"github.com/nats-io/nats.go"
 )
 
 // ---------- C03: a call through the emitted client and the emitted processor ----------
@@ -62,6 +65,31 @@ func (m *memTransport) Request(ctx frugal.FContext, payload []byte) (thrift.TTra
 	buf := thrift.NewTMemoryBuffer()
 	buf.Write(reply)
 	return buf, nil
+}
+
+var (
+	natsOnce sync.Once
+	natsURL  string
+	natsErr  error
+	natsSeq  uint64
+)
+
+// natsBroker starts one in-process nats-server per runner process.
+func natsBroker() (string, error) {
+	natsOnce.Do(func() {
+		s, err := natsd.NewServer(&natsd.Options{Host: "127.0.0.1", Port: -1, NoLog: true, NoSigs: true})
+		if err != nil {
+			natsErr = err
+			return
+		}
+		go s.Start()
+		if !s.ReadyForConnections(10 * time.Second) {
+			natsErr = errors.New("in-process nats-server not ready")
+			return
+		}
+		natsURL = s.ClientURL()
+	})
+	return natsURL, natsErr
 }
 
 func protoFactory(name string) *frugal.FProtocolFactory {
@@ -204,6 +232,49 @@ func runRPC(d *Defs, svcKey, methodKey, payload string) string {
 		srv := httptest.NewServer(http.HandlerFunc(frugal.NewFrugalHandlerFunc(proc, pf)))
 		defer srv.Close()
 		tr = frugal.NewFHTTPTransportBuilder(&http.Client{}, srv.URL).Build()
+	case "tcp":
+		// adapter transport over a loopback socket against FSimpleServer
+		st, err := thrift.NewTServerSocket("127.0.0.1:0")
+		if err != nil {
+			return "listen-failed"
+		}
+		if err := st.Listen(); err != nil {
+			return "listen-failed"
+		}
+		srv := frugal.NewFSimpleServer(proc, st, pf)
+		go srv.Serve()
+		defer srv.Stop()
+		sock := thrift.NewTSocketConf(st.Addr().String(), &thrift.TConfiguration{ConnectTimeout: 2 * time.Second})
+		tr = frugal.NewAdapterTransport(sock)
+	case "nats":
+		url, err := natsBroker()
+		if err != nil {
+			return "no-broker"
+		}
+		sconn, err := nats.Connect(url)
+		if err != nil {
+			return "no-conn"
+		}
+		defer sconn.Close()
+		cconn, err := nats.Connect(url)
+		if err != nil {
+			return "no-conn"
+		}
+		defer cconn.Close()
+		subject := fmt.Sprintf("verif.c03.%d", atomic.AddUint64(&natsSeq, 1))
+		nsrv := frugal.NewFNatsServerBuilder(sconn, proc, pf, []string{subject}).WithWorkerCount(2).Build()
+		served := make(chan error, 1)
+		go func() { served <- nsrv.Serve() }()
+		time.Sleep(5 * time.Millisecond)
+		sconn.Flush()
+		defer func() {
+			nsrv.Stop()
+			select {
+			case <-served:
+			case <-time.After(3 * time.Second):
+			}
+		}()
+		tr = frugal.NewFNatsTransport(cconn, subject, "")
 	default:
 		tr = &memTransport{proc: proc, pf: pf}
 	}
